@@ -186,8 +186,8 @@ class _Package:
 
 
 _OPTS_COMMON = ("image_ref", "alt", "core_dates", "zip_stored", "math_seed", "labeler")
-OPTS_DOCX = _OPTS_COMMON + ("block_sdt", "last_rendered_breaks")
-OPTS_PPTX = _OPTS_COMMON + ("no_offsets", "comment_part_numbering", "math_fallback_image")
+OPTS_DOCX = _OPTS_COMMON + ("block_sdt", "last_rendered_breaks", "br_type", "cell_sdt")
+OPTS_PPTX = _OPTS_COMMON + ("no_offsets", "comment_part_numbering", "math_fallback_image", "slide_part_numbers")
 OPTS_XLSX = _OPTS_COMMON + ("inline_strings", "sheet_images")
 
 
@@ -548,7 +548,11 @@ class _Docx:
             elif k == "tab":
                 out.append("<w:r>%s<w:tab/></w:r>" % rpr)
             elif k == "br":
-                out.append("<w:r>%s<w:br/></w:r>" % rpr)
+                # ST_BrType: textWrapping (the default), page, column - all of them end the line
+                bt = self.opts.get("br_type")
+                if bt not in (None, "textWrapping", "page", "column"):
+                    raise ValueError("br_type")
+                out.append("<w:r>%s<w:br%s/></w:r>" % (rpr, ' w:type="%s"' % bt if bt else ""))
             elif k == "a":
                 if self.in_link:
                     raise NotImplementedError("nested hyperlinks cannot be expressed in WordprocessingML")
@@ -734,7 +738,13 @@ class _Docx:
                 x.append('<w:trPr><w:gridAfter w:val="%d"/></w:trPr>' % (ncols - len(row)))
             for cell in row:
                 x.append('<w:tc><w:tcPr><w:tcW w:w="%d" w:type="dxa"/></w:tcPr>' % cw)
-                x.append(self.blocks(cell, None, "cell"))
+                inner = self.blocks(cell, None, "cell")
+                if self.opts.get("cell_sdt"):
+                    # the cell's whole content inside one block-level content control (CT_SdtCell's sibling: w:tc/w:sdt/w:sdtContent)
+                    self.sdt_id += 1
+                    inner = ('<w:sdt><w:sdtPr><w:id w:val="%d"/></w:sdtPr><w:sdtContent>%s</w:sdtContent></w:sdt>'
+                             % (100000 + self.sdt_id, inner))
+                x.append(inner)
                 x.append("</w:tc>")
             x.append("</w:tr>")
         x.append("</w:tbl>")
@@ -1113,6 +1123,11 @@ def pptx(doc, images=None, opts=None) -> bytes:
     if numbering not in ("sequential", "slide"):
         raise ValueError("comment_part_numbering")
     units = doc[2]
+    # the part name of a slide is arbitrary: presentation order is p:sldIdLst alone (tools that move slides do not rename parts)
+    spn = opts.get("slide_part_numbers", "order")
+    if spn not in ("order", "reversed", "gapped"):
+        raise ValueError("slide_part_numbers")
+    pn = {"order": lambda i: i, "reversed": lambda i: len(units) + 1 - i, "gapped": lambda i: 2 * i + 8}[spn]
     master_rid = pkg.rel(pres, RT + "slideMaster", "slideMasters/slideMaster1.xml")
     slides, notes_parts, comment_parts = [], [], []
     max_body = 1
@@ -1124,14 +1139,14 @@ def pptx(doc, images=None, opts=None) -> bytes:
         for k, v in extras.items():
             if v and k not in ("notes", "comments"):
                 raise NotImplementedError("PPTX cannot express unit extra %r" % (k,))
-        name = "ppt/slides/slide%d.xml" % i
+        name = "ppt/slides/slide%d.xml" % pn(i)
         pkg.rel(name, RT + "slideLayout", "../slideLayouts/slideLayout1.xml")
         if extras.get("notes"):
             n = len(notes_parts) + 1
             nname = "ppt/notesSlides/notesSlide%d.xml" % n
             pkg.rel(name, RT + "notesSlide", "../notesSlides/notesSlide%d.xml" % n)
             pkg.rel(nname, RT + "notesMaster", "../notesMasters/notesMaster1.xml")
-            pkg.rel(nname, RT + "slide", "../slides/slide%d.xml" % i)
+            pkg.rel(nname, RT + "slide", "../slides/slide%d.xml" % pn(i))
             paras = "".join("<a:p><a:r><a:t>%s</a:t></a:r></a:p>" % _esc(t) for t in extras["notes"])
             notes_parts.append((nname, XML_DECL + (
                 '<p:notes %s><p:cSld><p:spTree>%s<p:sp><p:nvSpPr><p:cNvPr id="2" name="Slide Image Placeholder 1"/><p:cNvSpPr>'
@@ -1140,7 +1155,7 @@ def pptx(doc, images=None, opts=None) -> bytes:
                 '<p:ph type="body" idx="1"/></p:nvPr></p:nvSpPr><p:spPr/><p:txBody><a:bodyPr/><a:lstStyle/>%s</p:txBody></p:sp></p:spTree></p:cSld>'
                 '<p:clrMapOvr><a:masterClrMapping/></p:clrMapOvr></p:notes>' % (_P_NS, _SP_TREE_HEAD, paras))))
         if extras.get("comments"):
-            n = i if numbering == "slide" else len(comment_parts) + 1
+            n = pn(i) if numbering == "slide" else len(comment_parts) + 1
             pkg.rel(name, RT + "comments", "../comments/comment%d.xml" % n)
             cms = []
             for t in extras["comments"]:
@@ -1152,7 +1167,7 @@ def pptx(doc, images=None, opts=None) -> bytes:
         xml = sl.render(u[1])
         max_body = max(max_body, sl.nbody)
         slides.append((name, xml))
-    slide_rids = [pkg.rel(pres, RT + "slide", "slides/slide%d.xml" % i) for i in range(1, len(units) + 1)]
+    slide_rids = [pkg.rel(pres, RT + "slide", "slides/slide%d.xml" % pn(i)) for i in range(1, len(units) + 1)]
     notes_rid = pkg.rel(pres, RT + "notesMaster", "notesMasters/notesMaster1.xml") if notes_parts else None
     if comment_parts:
         pkg.rel(pres, RT + "commentAuthors", "commentAuthors.xml")
